@@ -170,6 +170,12 @@ Definition hash_to_curve_bytes (message : list Z) : option (list Z) :=
   | None => None
   end.
 
+(* the executable instance computes exactly what NUT-00 prescribes over SHA-256 and secp256k1
+   point decompression *)
+Theorem hash_to_curve_eq_spec : forall m r,
+  hash_to_curve m = r <-> h2c_spec sha256 decompress m r.
+Proof. exact (h2c_impl_eq_spec sha256 decompress). Qed.
+
 (* number of failed counters before success, for test selection and reporting *)
 Fixpoint h2c_first (fuel : nat) (message : list Z) (c : Z) : option Z :=
   match fuel with
